@@ -20,7 +20,7 @@ AllowedCopy == AllowedIn("copy")
 Allowed(m) == CASE m = "compress" -> AllowedCompress [] m = "expand" -> AllowedExpand [] m = "copy" -> AllowedCopy
                 [] OTHER -> {<<"main", "Start", 0>>}
 
-MainPathEv == {"OpIn", "Cli", "OpOut", "Worked", "Halt", "OutDone", "InRm", "Sti", "StiDone", "InDone", "Exit", "Cleanup", "Terminate", "BailoutMain", "BailoutSub"}
+MainPathEv == {"OpIn", "Cli", "OpOut", "Worked", "Halt", "OutDone", "InRm", "Sti", "StiDone", "InDone", "Exit", "Cleanup", "Terminate", "BailoutMain", "BailoutSub", "QueueCaps"}
 VARIABLES l, mode, role, counts
 vars == <<l, mode, role, counts>>
 Ev == TraceLog[l]
